@@ -145,6 +145,19 @@ impl Property for Dispatch {
             ..ConvOpts::default()
         };
         let mut spec = gen_conv_spec(t, &co);
+        if !spec.subs.is_empty() && t.chance(1, 8) {
+            // a user-defined subcommand called `help` (the generated one switched off): an ordinary subcommand,
+            // globals reach it like any other
+            fn no_help(c: &mut CmdSpec) {
+                c.settings.disable_help_subcommand = true;
+                for s in &mut c.subs {
+                    no_help(s);
+                }
+            }
+            no_help(&mut spec);
+            let k = t.choose(spec.subs.len());
+            spec.subs[k].name = "help".to_owned();
+        }
         let mut next = 0;
         add_globals(t, &mut spec, &mut next);
         add_flag_aliases(t, &mut spec);
@@ -413,10 +426,163 @@ fn cut_external(obs: &LevelObs, n: usize) -> LevelObs {
     rec(obs, n)
 }
 
+// ---------------------------------------------------------------------------
+// long flag subcommands next to a hyphen-accepting positional
+
+/// "Known flags get precedence over the next possible positional argument with allow_hyphen_values(true)"
+/// (Arg::allow_hyphen_values): a long flag subcommand (or its alias) is dispatched, it is not taken as the value of
+/// a positional that is still unfilled and accepts hyphen values.
+#[derive(Serialize, Deserialize, Hash, Clone, Debug)]
+pub struct HyphenCase {
+    pub spec: CmdSpec,
+    pub argv: Vec<String>,
+    /// the chain the line names
+    pub chain: Vec<String>,
+    /// value given to the root positional before the flags, if any
+    pub positional: Option<String>,
+}
+
+pub struct FlagSubVsHyphenPositional;
+
+impl Property for FlagSubVsHyphenPositional {
+    type Case = HyphenCase;
+    fn name(&self) -> &'static str {
+        "long-flag-subcommand-vs-hyphen-positional"
+    }
+    fn rule(&self) -> String {
+        "small trees whose root (and sometimes the first subcommand) has an optional positional with allow_hyphen_values(true) (single, or \
+         multi-value and then left unfilled; never `last`), 0-2 plain long flags and 1-3 subcommands that have a long flag and sometimes a \
+         long-flag alias, one of them with a nested long-flag subcommand x lines written only in `--long` forms: optional positional \
+         value, some of the level's flags, then the subcommand by `--<long flag>` or `--<alias>`, its flags, optionally the nested one. \
+         Oracle: the parse succeeds, the reported chain is the named chain, the flags of every level are as given and the positional \
+         holds exactly what was written for it (nothing when it was left out). non-trivial = the positional is unfilled when the flag \
+         subcommand is named; distinct = distinct (spec, argv)"
+            .into()
+    }
+    fn budget(&self, tier: Tier) -> Budget {
+        Budget { cases: tier.pick(150_000, 3_000_000), tape_len: 200 }
+    }
+    fn decode(&self, t: &mut Tape<'_>) -> HyphenCase {
+        let flag = |id: &str, long: &str| ArgSpec { id: id.to_owned(), long: Some(long.to_owned()), action: Action::SetTrue, ..Default::default() };
+        let hyphen_pos = |t: &mut Tape<'_>| {
+            let multi = t.bool();
+            ArgSpec {
+                id: "input".to_owned(),
+                allow_hyphen_values: true,
+                num_args: Some(if multi { (1, usize::MAX) } else { (1, 1) }),
+                ..Default::default()
+            }
+        };
+        let mut root = CmdSpec { name: "prog".to_owned(), term_width: Some(80), ..Default::default() };
+        let root_pos = hyphen_pos(t);
+        let root_multi = root_pos.value_range().1 > 1;
+        root.args.push(root_pos);
+        let all_flags = [("f0", "alpha"), ("f1", "beta")];
+        let nflags = t.range(0, 2);
+        for (id, l) in all_flags.iter().take(nflags) {
+            root.args.push(flag(id, l));
+        }
+        let names = [("sync", "sync", "synchronize"), ("query", "query", "ask"), ("remove", "rm-all", "erase")];
+        let nsubs = t.range(1, 3);
+        for (i, (n, lf, al)) in names.iter().take(nsubs).enumerate() {
+            let mut sc = CmdSpec { name: (*n).to_owned(), long_flag: Some((*lf).to_owned()), ..Default::default() };
+            if t.bool() {
+                sc.long_flag_aliases.push(((*al).to_owned(), t.bool()));
+            }
+            sc.args.push(flag("deep", "deep"));
+            if i == 0 && t.bool() {
+                if t.bool() {
+                    sc.args.push(hyphen_pos(t));
+                }
+                let mut leaf = CmdSpec { name: "leaf".to_owned(), long_flag: Some("leaf-flag".to_owned()), ..Default::default() };
+                leaf.args.push(flag("tip", "tip"));
+                sc.subs.push(leaf);
+            }
+            root.subs.push(sc);
+        }
+        // the line
+        let mut argv = vec!["prog".to_owned()];
+        let positional = if !root_multi && t.chance(1, 3) {
+            let v = t.pick_s(&["v", "-x", "--unknown-word", "-"]).to_owned();
+            argv.push(v.clone());
+            Some(v)
+        } else {
+            None
+        };
+        for (_, l) in all_flags.iter().take(nflags) {
+            if t.bool() {
+                argv.push(format!("--{l}"));
+            }
+        }
+        let k = t.choose(root.subs.len());
+        let sc = &root.subs[k];
+        let mut chain = vec![sc.name.clone()];
+        let mut forms = vec![sc.long_flag.clone().unwrap()];
+        forms.extend(sc.long_flag_aliases.iter().map(|a| a.0.clone()));
+        argv.push(format!("--{}", t.pick(&forms)));
+        if t.bool() {
+            argv.push("--deep".to_owned());
+        }
+        if let Some(leaf) = sc.subs.first() {
+            if t.bool() {
+                argv.push("--leaf-flag".to_owned());
+                chain.push(leaf.name.clone());
+                if t.bool() {
+                    argv.push("--tip".to_owned());
+                }
+            }
+        }
+        HyphenCase { spec: root, argv, chain, positional }
+    }
+    fn run(&self, case: &HyphenCase, ctx: &mut Ctx) -> Verdict {
+        let cmd = match build_checked(&case.spec) {
+            Built::Ok(c) => c,
+            Built::Invalid(_) => return Verdict::Discard("invalid-config"),
+            Built::Panic(p) => return Verdict::Fail(Failure::from_panic(&p)),
+        };
+        let m = match catch(|| cmd.try_get_matches_from(case.argv.iter())) {
+            Err(p) => return Verdict::Fail(Failure::from_panic(&p)),
+            Ok(Err(e)) => {
+                return Verdict::fail(
+                    format!("dispatch:hyphen-positional:valid-line-rejected:{:?}", e.kind()),
+                    format!("argv {:?} names the chain {:?} by long flags: {}", case.argv, case.chain, e.to_string().lines().next().unwrap_or("")),
+                )
+            }
+            Ok(Ok(m)) => m,
+        };
+        let obs = observe(&m);
+        let chain: Vec<String> = obs.chain().iter().map(|s| s.to_string()).collect();
+        ensure!(
+            chain == case.chain,
+            "dispatch:hyphen-positional:chain-differs",
+            "argv {:?}: named chain {:?}, reported chain {:?} (root positional: {:?})",
+            case.argv,
+            case.chain,
+            chain,
+            m.get_raw("input").map(|v| v.map(|x| x.to_string_lossy().into_owned()).collect::<Vec<_>>())
+        );
+        let got: Option<Vec<String>> = m.get_raw("input").map(|v| v.map(|x| x.to_string_lossy().into_owned()).collect());
+        let want: Option<Vec<String>> = case.positional.clone().map(|v| vec![v]);
+        ensure!(
+            got == want,
+            "dispatch:hyphen-positional:positional-differs",
+            "argv {:?}: the root positional holds {:?}, written for it: {:?}",
+            case.argv,
+            got,
+            want
+        );
+        if case.positional.is_none() {
+            ctx.nontrivial();
+        }
+        ctx.label(if case.chain.len() > 1 { "nested-long-flag-subcommand" } else { "long-flag-subcommand" });
+        Verdict::Pass
+    }
+}
+
 pub fn check() -> Check {
     Check {
         id: "C09",
-        parts: vec![Box::new(Gen(Dispatch))],
+        parts: vec![Box::new(Gen(Dispatch)), Box::new(Gen(FlagSubVsHyphenPositional))],
         assumptions: vec![
             "global ids are unique in the tree (a descendant defining its own argument under a global's id is a configuration the \
              documentation does not describe)"
